@@ -226,13 +226,31 @@ type RawSPS struct {
 
 // Width 视频宽度（像素）
 func (sps *RawSPS) Width() int {
-	w := (sps.PicWidthInMbsMinus1+1)*16 - sps.FrameCropLeftOffset*2 - sps.FrameCropRightOffset*2
+	cropUnitX, _ := sps.cropUnits()
+	w := (sps.PicWidthInMbsMinus1+1)*16 - sps.FrameCropLeftOffset*cropUnitX - sps.FrameCropRightOffset*cropUnitX
 	return int(w)
+}
+
+// cropUnits 返回裁剪单位 CropUnitX、CropUnitY（ITU-T H.264 式 7-18 ~ 7-21）：
+// 取决于色度格式（ChromaArrayType）以及是否场编码。
+func (sps *RawSPS) cropUnits() (x, y uint16) {
+	x, y = 1, 1
+	if sps.SeparateColourPlaneFlag == 0 { // ChromaArrayType == chroma_format_idc
+		switch sps.ChromaFormatIdc {
+		case 1: // 4:2:0
+			x, y = 2, 2
+		case 2: // 4:2:2
+			x, y = 2, 1
+		}
+	}
+	y *= 2 - uint16(sps.FrameMbsOnlyFlag)
+	return
 }
 
 // Height 视频高度（像素）
 func (sps *RawSPS) Height() int {
-	h := (2-uint16(sps.FrameMbsOnlyFlag))*(sps.PicHeightInMapUnitsMinus1+1)*16 - sps.FrameCropTopOffset*2 - sps.FrameCropBottomOffset*2
+	_, cropUnitY := sps.cropUnits()
+	h := (2-uint16(sps.FrameMbsOnlyFlag))*(sps.PicHeightInMapUnitsMinus1+1)*16 - sps.FrameCropTopOffset*cropUnitY - sps.FrameCropBottomOffset*cropUnitY
 	return int(h)
 }
 
